@@ -240,19 +240,38 @@ pub fn cmd_run(args: &[String]) -> i32 {
         for (k, f) in frames.iter().enumerate() {
             writeln!(o, "{}", json!({"ev": "tx", "id": k + 1, "data": f})).unwrap();
         }
-        let res = catch(|| -> std::result::Result<Vec<Vec<u8>>, String> {
-            let mut g: Box<dyn GraphRunner> = if mt { Box::new(MTGraph::new()) } else { Box::new(Graph::new()) };
-            let store = if sc["chain"] == "1200" {
-                let audio = afsk(&nrzi(&bits), rate, 1200.0, phase, toff);
-                chain1200(g.as_mut(), audio, rate as Float)
-            } else {
-                let iq = fsk_iq(&scramble(&nrzi(&bits)), rate, 9600.0, 3000.0, phase, toff, sc["tail"].as_u64().unwrap_or(40000) as usize);
-                chain9600(g.as_mut(), iq, rate as Float)
-            };
-            g.run().map_err(|e| format!("{e}"))?;
-            let got = store.lock().unwrap().clone();
-            Ok(got)
+        // The run happens in its own thread under a wall-clock watchdog: a receive chain that is still
+        // running after `wall_s` seconds (the longest scenarios take a few seconds) is reported as hung.
+        let (txc, rxc) = std::sync::mpsc::channel();
+        let (sc2, bits2) = (sc.clone(), bits.clone());
+        std::thread::spawn(move || {
+            let sc = sc2;
+            let bits = bits2;
+            let res = catch(|| -> std::result::Result<Vec<Vec<u8>>, String> {
+                let mut g: Box<dyn GraphRunner> = if mt { Box::new(MTGraph::new()) } else { Box::new(Graph::new()) };
+                let store = if sc["chain"] == "1200" {
+                    let audio = afsk(&nrzi(&bits), rate, 1200.0, phase, toff);
+                    chain1200(g.as_mut(), audio, rate as Float)
+                } else {
+                    let iq = fsk_iq(&scramble(&nrzi(&bits)), rate, 9600.0, 3000.0, phase, toff, sc["tail"].as_u64().unwrap_or(40000) as usize);
+                    chain9600(g.as_mut(), iq, rate as Float)
+                };
+                g.run().map_err(|e| format!("{e}"))?;
+                let got = store.lock().unwrap().clone();
+                Ok(got)
+            });
+            let _ = txc.send(res);
         });
+        let res = match rxc.recv_timeout(std::time::Duration::from_secs(sc["wall_s"].as_u64().unwrap_or(240))) {
+            Ok(r) => r,
+            Err(_) => {
+                writeln!(o, "{}", json!({"ev": "done", "outcome": "hung", "msg": "the receive chain did not finish within the watchdog time"})).unwrap();
+                o.flush().unwrap();
+                println!("{}", json!({"scenarios": n + 1, "hung": true}));
+                // the stuck thread cannot be stopped: end the process, the remaining scenarios of this batch are not run
+                std::process::exit(0);
+            }
+        };
         match res {
             Ok(Ok(got)) => {
                 for p in got {
